@@ -6,6 +6,7 @@ ALL = [f"C{i:02d}" for i in range(1, 21)]
 
 # pid -> dict(text, note, technique, design_ref, category)
 CHECKS = {}
+COMMON_GEO_NOTE = "8 spacetime classes x 1 seed (+2 generic) in quick, x 4 seeds in thorough; fd_order 2/4/6/8 and interior/face/edge/corner probes on a subset; one probe point per grid; a difference above the tolerance is re-examined at half the spacing and accepted only if it shrinks at the order of the scheme; every key is also evaluated after each pre-history from the cache model (first requests of the shortest two-request histories reaching every branch), with everything kept cached. The vacuum=True shortcuts are not exercised (a generic jet is not Ricci-flat). Values are exact rationals lifted from 10 primes. Trusted: TLC, CRT/rational reconstruction (self-tested each run), the polynomial field builder (its K field is cross-checked against the oracle's K at the probe)."
 CHECKS["C07"] = dict(
  text="Stencil.tla derives every row of every derivative operator (order 2/4/6/8 x one-sided/periodic/symmetric x N x i) from Lagrange's formula in exact rationals; TLC proves on the spec exactness on polynomials of degree <= p, circulant/mirror structure and support, and enumerates every state; every state is compared with the corresponding row of the complete operator matrix of the real d3x/d3y/d3z (unit-vector probing on non-cubic grids, two spacing triples) and the tensor variants with its component-wise application. By linearity this decides the property for all input fields within the enumerated N range (exhaustive).",
  note="N from the minimum supported size to +8 (quick) / +40 (thorough); rows depend on i only through min(i, N-1-i, p/2), so larger N adds no new row classes. Float comparison within 64 ulp of the exact weight / h. Trusted: TLC, numpy.",
@@ -81,6 +82,11 @@ CHECKS["C19"] = dict(
  note="8 spacetime classes x 1 seed (+2 generic) in quick, x 4 seeds in thorough; fd_order 2/4/6/8 and interior/face/edge/corner probes on a subset; one probe point per grid; a difference above the tolerance is re-examined at half the spacing and accepted only if it shrinks at the order of the scheme. The vacuum=True shortcuts are not exercised (a generic jet is not Ricci-flat). Values are exact rationals lifted from 10 primes. Trusted: TLC, CRT/rational reconstruction (self-tested each run), the polynomial field builder (its K field is cross-checked against the oracle's K at the probe).",
  technique="TLA+ textbook 3+1/4-D tensor calculus on jets in exact modular arithmetic evaluated by TLC (oracle validated by identities), lifted by CRT; real code run on polynomial fields with the same jets and compared at the probe point with convergence re-examination",
  design_ref="DESIGN.md 4.7, 5/C19")
+CHECKS["C05"] = dict(
+ text="ThreePlusOne.tla computes, from the jets of the spatial metric, the shift and of test scalar / vector / rank-2 / 4-vector fields, the spatial Christoffel symbols, Riemann, Ricci and scalar, the Christoffel symbols and Ricci tensor of the conformal metric, the covariant derivative for every index pattern ('', u, d, uu, dd, ud, du), all divergences, the curl, the spacetime covariant derivative of 4-vectors and the Lie derivative along the shift for every supported rank / index pattern with density weights {0, 1/6, 2/3, -2/3, 1}, from their textbook definitions in exact arithmetic (TLC checks metric compatibility and the Riemann symmetries on the oracle); every real key and helper call (35 quantities) is compared at the probe point, also after every pre-history from the cache model; D gamma = 0, lowering commutes with D and the Lie_beta argument-validation table are evaluated on the code.",
+ note=COMMON_GEO_NOTE,
+ technique="TLA+ textbook tensor calculus on jets in exact modular arithmetic evaluated by TLC, lifted by CRT; real helpers run on polynomial fields with the same jets and compared at the probe point with convergence re-examination",
+ design_ref="DESIGN.md 4.7, 5/C05")
 
 NA = {
  "C17": "Closed-form transcendental solutions (sin, sinh, 2F1, t^(2/3)): no state, history or case analysis for a TLA+ specification to enumerate, and TLC has neither reals nor transcendental functions; a CAS/interval technique would be a different family (DESIGN.md section 6).",
